@@ -663,8 +663,14 @@ impl TxRecoveryState {
                     );
                 },
                 TxWalEntry::PrepareVote { tx_id, shard, vote } => {
-                    if let Some((_, votes, _)) = in_progress.get_mut(tx_id) {
-                        votes.push((*shard, *vote));
+                    // The coordinator logs a vote before it validates it, so the log also
+                    // holds votes it then rejected (late vote after the phase changed,
+                    // duplicate vote of a shard). Replay applies the same acceptance rule:
+                    // only while still collecting votes, first vote of a shard wins.
+                    if let Some((_, votes, phase)) = in_progress.get_mut(tx_id) {
+                        if *phase == TxPhase::Preparing && !votes.iter().any(|(s, _)| s == shard) {
+                            votes.push((*shard, *vote));
+                        }
                     }
                 },
                 TxWalEntry::PhaseChange { tx_id, to, .. } => {
